@@ -156,6 +156,8 @@ def run(R):
         delta = None if tok == "none" else float(parse_rat(tok))
         scale = float(np.sum(c["scale_w"])) + 1.0
         ok = delta is not None and delta <= 1e-3 * scale
+        if c["objective"] == "unity" and float(objv) <= 1e-3 * scale:
+            ok = True    # a sum of squares is >= 0 at every feasible point (Cert.lsObj_nonneg): a value this small is optimal up to itself
         R.cert(ok)
         if c["objective"] == "unity" and c["targets"] == "inside" and np.max(np.abs(sc - 1)) > 1e-3:
             R.failB(dict(c, impl=sc), "all targets are in gamut but the scales are %s, not (1, 1)" % sc.tolist(), sig + ":not-unity")
